@@ -62,6 +62,8 @@ pub trait Calc: AbsVal + 'static {
     fn from_prim(name: &str, sign: i32, e: u32, o: i64) -> Option<(Option<Self>, Option<f64>)>;
     /// FloatConst constant `name`: (the type's constant, F's constant widened to f64)
     fn float_const(name: &str) -> Option<(Self, f64)>;
+    /// DualNum::from_inner on the inner number described by `v` (the projection of a value of the scalar type)
+    fn from_inner_json(v: &Value) -> Result<Self, String>;
 }
 
 pub fn prim_signed(sign: i32, e: u32, o: i64) -> i128 {
@@ -129,6 +131,10 @@ macro_rules! impl_calc {
                     "from_f64" => (<D as FP>::from_f64(fl), w(<$F as FP>::from_f64(fl))),
                     _ => return None,
                 })
+            }
+            fn from_inner_json(v: &Value) -> Result<Self, String> {
+                let inner = <<$T as DualNum<$F>>::Inner as AbsVal>::from_json(v)?;
+                Ok(<$T as DualNum<$F>>::from_inner(inner))
             }
             fn float_const(name: &str) -> Option<(Self, f64)> {
                 use num_traits::FloatConst as FC;
